@@ -373,6 +373,19 @@ def rotation_import_family():
     return out
 
 
+def distant_gate_family():
+    """two-qubit tket gates whose qubits are three apart (four-qubit register, no measurement: judged on the state)"""
+    out = []
+    for op, ph in (("CX", 0), ("CZ", 0), ("CRz", 3)):
+        for qs in ([0, 3], [3, 0], [1, 3], [0, 2]):
+            cmds = [{"op": "H", "ph": 0, "qs": [q], "bs": []} for q in (0, 3)] + [{"op": "X", "ph": 0, "qs": [1], "bs": []}] + \
+                   [{"op": op, "ph": ph, "qs": qs, "bs": []}, {"op": "T", "ph": 0, "qs": [qs[1]], "bs": []},
+                    {"op": "H", "ph": 0, "qs": [qs[0]], "bs": []}]
+            out.append({"nq": 4, "nb": 0, "cmds": cmds, "postsel": [], "sc": {"re": 1, "im": 0, "s": 0},
+                        "post": {"ty": [], "layers": []}})
+    return out
+
+
 def features(mc):
     """which of the situations named in known_findings.json occur in the circuit"""
     ty = list(mc["ty"])
@@ -458,7 +471,7 @@ def run(tier, seed, t0):
             nested = pool.map(work_one, sample, chunksize=4)
         recs = [r for group in nested for r in group]
         recs += [observe_from(random_tk(rnd)) for _ in range(c["tk_random"])]
-        recs += [observe_from(t) for t in rotation_import_family()]
+        recs += [observe_from(t) for t in rotation_import_family() + distant_gate_family()]
         judged = [r for r in recs if not r["refused"]]
         rows = [{"kind": r["kind"], "mc": r["mc"], "tk": r["tk"], "exc": r["exc"]} for r in judged]
         tf = os.path.join(work, "trace.ndjson")
